@@ -500,6 +500,15 @@ def emit_item(item, opts, drops):
     lost_hints = []
     if item.kind == "fn":
         fp = FnParts(item)
+        if opts.get("attr_spec"):
+            add_before(item.first, opts["attr_spec"])
+        if opts.get("drop_const"):
+            # `const fn` is not allowed for trait methods (extension-trait emission): drop the qualifier
+            for p in range(a, fp.fn_kw):
+                if s.tt(sig[p]) == "const" and s.toks[sig[p]][0] == "id":
+                    skip.add(sig[p])
+                    if "const qualifier (trait methods cannot be const fn)" not in drops:
+                        drops.append("const qualifier (trait methods cannot be const fn)")
         if opts.get("rename"):
             replace[sig[fp.name_pos]] = opts["rename"]
         if opts.get("ret") and fp.arrow is not None:
@@ -509,7 +518,8 @@ def emit_item(item, opts, drops):
             # keep up to (not including) body, add clauses and ';'
             for k in range(sig[fp.body_open], sig[fp.body_close] + 1):
                 skip.add(k)
-            add_after(sig[fp.body_open - 1], "\n" + (opts.get("clauses") or "") + ";")
+            # appended AFTER what is already attached to that token (the ')' closing a named return)
+            ins_after[sig[fp.body_open - 1]] = ins_after.get(sig[fp.body_open - 1], "") + "\n" + (opts.get("clauses") or "") + ";"
         else:
             if opts.get("clauses") and fp.body_open is not None:
                 add_before(sig[fp.body_open], "\n" + opts["clauses"] + "\n")
@@ -522,7 +532,7 @@ def emit_item(item, opts, drops):
                 add_before(sig[loops[k][1]], "\n" + text + "\n")
             bf = ""
             if opts.get("probe"):
-                bf += " proof { assert(false); } "
+                bf += " proof!{ assert(false); } " if opts.get("plain") else " proof { assert(false); } "
             if opts.get("body_first"):
                 bf += "\n" + opts["body_first"] + "\n"
             if bf:
@@ -549,6 +559,16 @@ def emit_item(item, opts, drops):
                     le = s.text.find("\n", pos)
                     tk = max(k for k in range(item.first, item.last + 1) if s.toks[k][1] < le and s.toks[k][0] != "ws")
                     add_after(tk, "\n" + text + "\n")
+    elif item.kind == "const" and (opts.get("clauses") or opts.get("body_first")):
+        # `const N: T = <expr>;` with a contract  ->  `exec const N: T <clauses> { <ghost first> <expr> }`
+        # (Verus' only form for a const with an `ensures`; the initializer expression stays verbatim)
+        eqp = next((p for p in range(a, b + 1) if s.tt(sig[p]) == "="), None)
+        kwp = next((p for p in range(a, b + 1) if s.tt(sig[p]) == "const" and s.toks[sig[p]][0] == "id"), None)
+        if eqp is not None and kwp is not None and s.tt(sig[b]) == ";":
+            add_before(sig[kwp], "exec ")
+            replace[sig[eqp]] = "\n" + (opts.get("clauses") or "") + "\n{\n" + ((opts["body_first"] + "\n") if opts.get("body_first") else "")
+            replace[sig[b]] = "\n}"
+            drops.append("const re-bracketed as `exec const N: T <contract> { <initializer> }` (initializer verbatim)")
     out = []
     for k in range(item.first, item.last + 1):
         if k in ins_before:
